@@ -167,6 +167,16 @@ type c07H struct {
 	stuck   bool
 	// forceHost, when set, is the host of the next recorded queries.
 	forceHost string
+	// wideLines (round 6): the next recorded queries get host names of 1-250
+	// bytes and answers of 0-3 KB, so that the lines of the log file differ
+	// widely in length.
+	wideLines bool
+	// tuneLen (round 6), when set: the next recorded query gets no answer and a
+	// host name of such a length that its line in the log file has exactly one
+	// of these lengths (the first that a host name of 1-250 bytes gives;
+	// provided the clock reading it gets is written with nine fractional
+	// digits).
+	tuneLen []int
 	// lockHeld: the harness itself holds fileFlushLock, so the flush an Add
 	// spawns cannot run yet (the Add is recorded as OAddAsync).
 	lockHeld bool
@@ -370,6 +380,9 @@ func (h *c07H) addX(late func(), step int) {
 	if h.forceHost != "" {
 		host = h.forceHost
 	}
+	if h.wideLines {
+		host = c07WideHost(r)
+	}
 	ip := vfPick(r, c07IPs)
 	cid := vfPick(r, c07CIDs)
 	reason := filtering.Reason(r.Intn(12))
@@ -430,6 +443,17 @@ func (h *c07H) addX(late func(), step int) {
 		if a.Rcode == dns.RcodeSuccess && r.Bool() {
 			a.Answer = append(a.Answer, &dns.A{Hdr: dns.RR_Header{Name: q.Question[0].Name, Rrtype: dns.TypeA, Class: dns.ClassINET, Ttl: uint32(r.Intn(600))}, A: net.IPv4(9, 9, byte(r.Intn(256)), 1)})
 		}
+		if h.wideLines {
+			// TXT strings of up to 255 bytes: an answer of 0-3 KB
+			for left := int(r.Range(0, 3000)) * r.Intn(2); left > 0; {
+				k := int(r.Range(1, 255))
+				if k > left {
+					k = left
+				}
+				a.Answer = append(a.Answer, &dns.TXT{Hdr: dns.RR_Header{Name: q.Question[0].Name, Rrtype: dns.TypeTXT, Class: dns.ClassINET, Ttl: 60}, Txt: []string{strings.Repeat("t", k)}})
+				left -= k
+			}
+		}
 		p.Answer = a
 		if r.Chance(1, 4) {
 			p.OrigAnswer = a
@@ -439,6 +463,21 @@ func (h *c07H) addX(late func(), step int) {
 		_, p.ReqECS, _ = net.ParseCIDR("1.2.3.0/24")
 	}
 
+	if len(h.tuneLen) > 0 {
+		p.Answer, p.OrigAnswer = nil, nil
+		dry := newLogEntry(h.ctx, slog.New(h.hook), p)
+		db, _ := json.Marshal(dry)
+		t9 := dry.Time.Truncate(time.Second).Add(123456789)
+		cur := len(db) - len(dry.Time.Format(time.RFC3339Nano)) + len(t9.Format(time.RFC3339Nano))
+		for _, tl := range h.tuneLen {
+			if wantHost := len(dry.QHost) + tl - cur; wantHost >= 1 && wantHost <= 250 {
+				host = c07HostOfLen(r, wantHost)
+				q.Question[0].Name = host + "."
+				break
+			}
+		}
+		h.tuneLen = nil
+	}
 	// strictly increasing wall-clock stamps
 	for time.Now().UnixNano() <= h.lastNS {
 	}
@@ -2159,6 +2198,182 @@ func (h *c07H) pagingAll() {
 	}
 }
 
+// c07WideHost draws a well-formed host name of 1-250 bytes (labels of at most
+// 63 bytes).
+func c07WideHost(r *vfRand) string {
+	n := int(r.Range(1, 250))
+	if r.Chance(1, 3) {
+		n = int(r.Range(1, 12))
+	}
+	return c07HostOfLen(r, n)
+}
+
+// c07HostOfLen draws a well-formed lower-case host name of exactly n bytes.
+func c07HostOfLen(r *vfRand, n int) string {
+	var b strings.Builder
+	for b.Len() < n {
+		k := int(r.Range(1, 63))
+		if k > n-b.Len() {
+			k = n - b.Len()
+		}
+		if b.Len() > 0 {
+			if k == 1 && n-b.Len() == 1 {
+				b.WriteByte('z') // no room for a dot and a label
+				break
+			}
+			b.WriteByte('.')
+			k--
+			if k == 0 {
+				k = 1
+			}
+		}
+		for i := 0; i < k && b.Len() < n; i++ {
+			b.WriteByte("abcdefghijklmnopqrstuvwxyz0123456789"[r.Intn(36)])
+		}
+	}
+	return b.String()
+}
+
+// cursorSweep (round 6): EVERY visible record in turn is the older_than
+// cursor of a page of 1 and of a page of 2; the page must hold exactly the
+// next records of the sequence (so the pages from any cursor on partition the
+// rest of the sequence), and its "oldest" must be the stamp of its last row.
+// A cursor that lies in a log file is located by the bisection of
+// qLogFile.seekTS: with lines of widely differing lengths the probes fall on
+// every kind of byte of a line, line breaks included.
+func (h *c07H) cursorSweep() {
+	want := h.expected(c07Query{})
+	h.cls["cursor-sweep"] = true
+	for _, lim := range []int{1, 2} {
+		for i, id := range want {
+			x := h.recs[id-1]
+			q := c07Query{limit: strconv.Itoa(lim), older: time.Unix(0, x.ns).UTC().Format(time.RFC3339Nano)}
+			resp := h.search(q)
+			end := i + 1 + lim
+			if end > len(want) {
+				end = len(want)
+			}
+			exp := want[i+1 : end]
+			switch x.where {
+			case 0:
+				h.cls["cursor-in-memory"] = true
+			case 1:
+				h.cls["cursor-in-current-file"] = true
+			case 2:
+				h.cls["cursor-in-rotated-file"] = true
+			}
+			if resp.code != 0 || !h.same(resp.ids, exp) {
+				h.fail("cursor-sweep", "page of %d with older_than = stamp of record %d (line of %d bytes) returned %v (code %d, oldest %q), the sequence goes on with %v: the pages do not partition the sequence",
+					lim, id, x.jlen, resp.ids, resp.code, resp.oldest, exp)
+			}
+		}
+	}
+}
+
+// alignProbe (round 6) records queries until the FIRST probe of the
+// timestamp bisection over the file that the next flush writes (offset
+// size/2) falls exactly on the line break that ends some record which is
+// neither the last nor the last but one: records are added until the line
+// length that the next record needs for that is one a host name of 1-250
+// bytes gives, then that record is added with the tuned host.  Reports
+// whether the alignment was reached (the clock digits can spoil an attempt).
+func (h *c07H) alignProbe() bool {
+	// ordinary lines while aligning: the closer the line breaks, the sooner one
+	// of them can be met
+	defer func(w bool) { h.wideLines = w }(h.wideLines)
+	h.wideLines = false
+	for attempt := 0; attempt < 60; attempt++ {
+		var ends []int64 // offset of the line break of every record still in memory
+		size := int64(0)
+		var last *c07Rec
+		for _, x := range h.recs {
+			if x.where == 0 {
+				size += int64(x.jlen) + 1
+				ends = append(ends, size-1)
+				last = x
+			}
+		}
+		if last != nil && len(ends) >= 3 {
+			for _, e := range ends[:len(ends)-2] {
+				if e == size/2 {
+					return true
+				}
+			}
+		}
+		// a tuned record of L bytes makes the size size+L+1; the probe is then
+		// (size+L+1)/2; wanted: an e with L = 2e - size - 1 or 2e - size that a
+		// host name of 1-250 bytes gives to a line without an answer (decided in
+		// addX, where the other fields of the record are drawn)
+		h.tuneLen = nil
+		if len(ends) >= 2 {
+			for _, e := range ends[:len(ends)-1] {
+				if L := 2*e - size - 1; L >= 150 && L <= 1000 {
+					h.tuneLen = append(h.tuneLen, int(L), int(L)+1)
+				}
+			}
+		}
+		h.add()
+	}
+	return false
+}
+
+// c07SweepHistory (round 6): nrec records with lines of widely differing
+// lengths, spread over rotated file, current file and memory as the script
+// says (a = add, f = flush, r = rotate), then the cursor sweep and the paging
+// chains.
+func c07SweepHistory(t *testing.T, out *vfOut, r *vfRand, kind string, script string) {
+	dir, err := os.MkdirTemp(t.TempDir(), "w")
+	if err != nil {
+		t.Fatal(err)
+	}
+	defer os.RemoveAll(dir)
+	h := c07NewH(t, r, dir)
+	h.newLog(1000, true, true)
+	c0 := h.coqConfig()
+	h.wideLines = true
+	h.cls["wide-lines"] = true
+	for _, tok := range strings.Fields(script) {
+		if h.stuck {
+			break
+		}
+		switch {
+		case tok == "f":
+			h.flushOp()
+		case tok == "r":
+			h.rotateOp()
+		case tok == "P":
+			if h.alignProbe() {
+				h.cls["probe-on-line-break"] = true
+			}
+		case strings.HasPrefix(tok, "a"):
+			n, _ := strconv.Atoi(tok[1:])
+			for i := 0; i < n; i++ {
+				h.add()
+			}
+		default:
+			t.Fatalf("script token %q", tok)
+		}
+		h.state()
+	}
+	h.cursorSweep()
+	h.pagingAll()
+	for _, x := range h.recs {
+		switch x.where {
+		case 0:
+			h.cls["entries-in-memory"] = true
+		case 1:
+			h.cls["entries-in-current-file"] = true
+		case 2:
+			h.cls["entries-in-rotated-file"] = true
+		}
+	}
+	lens := make([]int, len(h.recs))
+	for i, x := range h.recs {
+		lens[i] = x.jlen
+	}
+	h.finish(out, c0, map[string]any{"kind": kind, "script": script, "line_lengths": lens})
+}
+
 // c07OrderPrelude: constructed histories in the dimension "push order vs
 // stamp order".  Script tokens: a = add; L1 / L2 = an Add overtaken by one /
 // two whole Adds; Lf = overtaken by an Add and a flush; Lr = by an Add, a flush
@@ -2379,6 +2594,12 @@ func TestVerifC07(t *testing.T) {
 	if !c07Stuck {
 		c07ConcurrentAdds(t, out, vfNewRand(41))
 	}
+	// round 6: lines of widely differing lengths, every record as cursor
+	for i, sc := range []string{"a6 f", "a12 f a2", "a9 f r a14 f a1", "a40 f", "a4 P f a1", "a3 P f r a5 f"} {
+		if !c07Stuck {
+			c07SweepHistory(t, out, vfNewRand(uint64(51+i)), "cursor-sweep", sc)
+		}
+	}
 	// ---- random histories
 	rnd := vfNewRand(out.Seed)
 	n := out.Scale(120, 500)
@@ -2399,4 +2620,27 @@ func TestVerifC07(t *testing.T) {
 		c07History(t, out, r, int(r.Range(6, 40)), uint(r.Range(1, 8)), !r.Chance(1, 8), "random-clock-step")
 	}
 	c07LatePct, c07StepPct = 0, 0
+	// round 6: drawn cursor sweeps (6-40 records over one or two files)
+	n = out.Scale(4, 40)
+	for i := 0; i < n && !c07Stuck; i++ {
+		r := rnd.Fork(uint64(200000 + i))
+		k := int(r.Range(6, 40))
+		sc := "a" + strconv.Itoa(k) + " f"
+		if r.Bool() {
+			j := int(r.Range(2, int64(k-2)))
+			sc = "a" + strconv.Itoa(j) + " f r a" + strconv.Itoa(k-j) + " f"
+		}
+		if r.Chance(1, 3) {
+			// ... ending in a constructed alignment: the first probe of the
+			// bisection falls on a line break
+			sc = "a" + strconv.Itoa(int(r.Range(3, 12))) + " P f"
+			if r.Bool() {
+				sc += " r a" + strconv.Itoa(int(r.Range(1, 9))) + " f"
+			}
+		}
+		if r.Chance(1, 3) {
+			sc += " a" + strconv.Itoa(1+r.Intn(2))
+		}
+		c07SweepHistory(t, out, r, "cursor-sweep-random", sc)
+	}
 }
